@@ -400,7 +400,8 @@ class PathEnumerator:
                 elif e["value"] == "otherwise":
                     for v in e.get("arm_values", ()):
                         out.append((mk("Eq", e["cond"], const(v)), False))
-        return out
+        from .guards import remember_facts
+        return remember_facts(out)
 
     def _walk(self, bb, blocks, evs, env, cls, backcount, state):
         """env: local -> int constant; cls: local -> (variant class, payload)"""
